@@ -67,11 +67,12 @@ FLOORS = {
                            "quantile_direct": 2200, "quantile_divisions_checked": 4000,
                            "set_index_quantile_divisions": 1800, "quantile_with_empty_input_partitions": 300},
               "max_skipped_fraction": 0.1},
-    "thorough": {"evaluations": 30000, "distinct_nontrivial": 25000,
-                 "counters": {"sdl_calls": 350000, "sdl_npartitions_calls": 170000, "sdl_chunksize_calls": 170000,
-                              "sdl_inputs_with_duplicates": 150000, "npartitions_exact_checked": 60000,
-                              "internal_boundaries_checked": 700000, "quantile_set_index": 9000,
-                              "quantile_direct": 9000, "quantile_divisions_checked": 18000},
+    "thorough": {"evaluations": 40000, "distinct_nontrivial": 38000,
+                 "counters": {"sdl_calls": 730000, "sdl_npartitions_calls": 360000, "sdl_chunksize_calls": 360000,
+                              "sdl_inputs_with_duplicates": 630000, "npartitions_exact_checked": 150000,
+                              "internal_boundaries_checked": 10000000, "quantile_set_index": 18000,
+                              "quantile_direct": 18000, "quantile_divisions_checked": 33000,
+                              "set_index_quantile_divisions": 15000, "quantile_with_empty_input_partitions": 2800},
                  "max_skipped_fraction": 0.1},
 }
 EXHAUSTIVE_SPACE = {
@@ -116,7 +117,7 @@ def cases(tier, seed):
             for comb in itertools.combinations_with_replacement(range(alpha), ln):
                 yield {"space": "exhaustive", "facet": "sdl", "letters": "".join(map(str, comb)), "vals": vals}
     nrand = 3000 if tier == "quick" else 40000
-    nq = 5000 if tier == "quick" else 60000
+    nq = 5000 if tier == "quick" else 40000
     # interleave the two random facets so that a truncated stream still has both
     iq = 0
     for i in range(nrand):
